@@ -117,6 +117,10 @@ def finish(mod, ctx, agg, coverage):
     unreproduced = []
     confirmed = []
     reps = [vs[0] for vs in classes.values()]
+    # violations that are by nature not reproducible by a single-case replay (hidden process state) are reported as they are
+    noreplay = [v for v in reps if v["fields"].get("sub") in ("nondeterministic_replay",)]
+    reps = [v for v in reps if v not in noreplay]
+    confirmed.extend(noreplay)
     max_confirm = 24
     if reps and hasattr(mod, "replay") and not getattr(mod, "NO_RECONFIRM", False):
         res = ctx.map("replay_task", [v["case"] for v in reps[:max_confirm]], label="confirm")
